@@ -126,7 +126,7 @@ theorem plainSection_of_diff (ho : RunOpts o name pname) (hs0 : CleanStart s0) (
     ∃ patch0 info par1 par2 r,
       PlainSection o (forced o) (loopStart s0 (diffLines filler old new oldt newt hs)) name bytes m patch0
         { patch0 with hunks := hs } info par1 par2 r ∧
-      render o.newlineOutput r.out = renderLines o.newlineOutput (splice (splitLines bytes) 0 hs) ∧
+      render o.newlineOutput r.out = Render.renderText o.newlineOutput (splice (splitLines bytes) 0 hs) ∧
       par2.s.eof = true := by
   have hfl : ∀ l ∈ filler, l.newline ≠ .none := by
     intro l hl
@@ -183,7 +183,7 @@ theorem C01_run_filler (ho : RunOpts o name pname) (hreal : o.dryRun = false) (h
     (hpatch : s0.fs.lookup pname = some (.file (patchText filler old new oldt newt hs) pm))
     (hd : UnifiedDiff filler old new oldt newt hs) (hvalid : Valid (splitLines bytes) 0 0 hs) :
     (runPatch o s0).1 = 0 ∧
-    (runPatch o s0).2.fs.lookup name = some (.file (renderLines o.newlineOutput (splice (splitLines bytes) 0 hs)) m) ∧
+    (runPatch o s0).2.fs.lookup name = some (.file (Render.renderText o.newlineOutput (splice (splitLines bytes) 0 hs)) m) ∧
     ∀ q, q ≠ name → (runPatch o s0).2.fs.lookup q = s0.fs.lookup q := by
   obtain ⟨patch0, info, par1, par2, r, H, hrender, heof⟩ := plainSection_of_diff ho hs0 hname htarget hw hd hvalid
   obtain ⟨s', hrun, hfs, _, hdone⟩ := processSection_clean H hreal hdir
@@ -217,7 +217,7 @@ theorem guessSection_of_diff (ho : GuessOpts o pname) (hs0 : CleanStart s0) (hna
     ∃ patch0 info par1 par2 r,
       GuessSection o (forced o) (loopStart s0 (diffLines filler old new oldt newt hs)) name bytes m patch0
         { patch0 with hunks := hs } info par1 par2 r ∧
-      render o.newlineOutput r.out = renderLines o.newlineOutput (splice (splitLines bytes) 0 hs) ∧
+      render o.newlineOutput r.out = Render.renderText o.newlineOutput (splice (splitLines bytes) 0 hs) ∧
       par2.s.eof = true := by
   have hfl : ∀ l ∈ filler, l.newline ≠ .none := by
     intro l hl
@@ -237,7 +237,7 @@ theorem guessSection_of_diff (ho : GuessOpts o pname) (hs0 : CleanStart s0) (hna
     applyPatch_valid (splitLines bytes) hs { patch0 with hunks := hs } (applyOptsOf o)
       (Option.map (fun l => List.map (fun a => !List.isEmpty a && List.head? a != some 110) l) s0.tty)
       hvalid (by rw [hrev]; rfl) ho.noDefine ho.fuzz
-  refine ⟨patch0, info, par1, par2, r, ?_, by rw [render, hrout], heof⟩
+  refine ⟨patch0, info, par1, par2, r, ?_, render_of_lines _ ho.noDefine hap hrout, heof⟩
   exact {
     noOperand := ho.noOperand,
     oldPath := by rw [hop0, Header.stripped, if_neg hold, hstrip],
@@ -257,7 +257,7 @@ theorem C01_run_guess_filler (ho : GuessOpts o pname) (hreal : o.dryRun = false)
     (hd : UnifiedDiff filler old new oldt newt hs) (hold : old ≠ devNull) (hstrip : stripPath old o.strip = name)
     (hvalid : Valid (splitLines bytes) 0 0 hs) :
     (runPatch o s0).1 = 0 ∧
-    (runPatch o s0).2.fs.lookup name = some (.file (renderLines o.newlineOutput (splice (splitLines bytes) 0 hs)) m) ∧
+    (runPatch o s0).2.fs.lookup name = some (.file (Render.renderText o.newlineOutput (splice (splitLines bytes) 0 hs)) m) ∧
     ∀ q, q ≠ name → (runPatch o s0).2.fs.lookup q = s0.fs.lookup q := by
   obtain ⟨patch0, info, par1, par2, r, H, hrender, heof⟩ :=
     guessSection_of_diff ho hs0 hname hnn htarget hw hd hold hstrip hvalid
@@ -336,7 +336,7 @@ theorem C01_run (o : Options) (s0 : DState) (name pname bytes oldt newt : Bytes)
     (hpatch : s0.fs.lookup pname = some (.file (diffText name name oldt newt hs) pm))
     (hh : DiffHunks hs) (hvalid : Valid (splitLines bytes) 0 0 hs) :
     (runPatch o s0).1 = 0 ∧
-    (runPatch o s0).2.fs.lookup name = some (.file (renderLines o.newlineOutput (splice (splitLines bytes) 0 hs)) m) ∧
+    (runPatch o s0).2.fs.lookup name = some (.file (Render.renderText o.newlineOutput (splice (splitLines bytes) 0 hs)) m) ∧
     ∀ q, q ≠ name → (runPatch o s0).2.fs.lookup q = s0.fs.lookup q :=
   C01_run_filler (filler := []) ho hreal hs0 hn.1 (dirExists_parent_of_noSlash s0.fs hn.2.1) hpn hpd htarget hw hpatch
     (unifiedDiff_of_flat hn hot hnt hh) hvalid
@@ -361,7 +361,7 @@ theorem C01_run_guess (o : Options) (s0 : DState) (name pname bytes oldt newt : 
     (hpatch : s0.fs.lookup pname = some (.file (diffText name name oldt newt hs) pm))
     (hh : DiffHunks hs) (hvalid : Valid (splitLines bytes) 0 0 hs) :
     (runPatch o s0).1 = 0 ∧
-    (runPatch o s0).2.fs.lookup name = some (.file (renderLines o.newlineOutput (splice (splitLines bytes) 0 hs)) m) ∧
+    (runPatch o s0).2.fs.lookup name = some (.file (Render.renderText o.newlineOutput (splice (splitLines bytes) 0 hs)) m) ∧
     ∀ q, q ≠ name → (runPatch o s0).2.fs.lookup q = s0.fs.lookup q :=
   C01_run_guess_filler (filler := []) ho hreal hs0 hn.1 (flat_ne_devNull hn.2.1) (dirExists_parent_of_noSlash s0.fs hn.2.1)
     hpn hpd htarget hw hpatch (unifiedDiff_of_flat hn hot hnt hh) (flat_ne_devNull hn.2.1) (stripPath_flat hn.2.1 hstrip) hvalid
@@ -401,13 +401,13 @@ theorem diffHunks : DiffHunks [hk] :=
 /-- the theorem applies: all its hypotheses hold of the instance -/
 theorem applies :
     (runPatch o s0).1 = 0 ∧
-    (runPatch o s0).2.fs.lookup name = some (.file (renderLines o.newlineOutput (splice (splitLines bytes) 0 [hk])) 0o644) ∧
+    (runPatch o s0).2.fs.lookup name = some (.file (Render.renderText o.newlineOutput (splice (splitLines bytes) 0 [hk])) 0o644) ∧
     ∀ q, q ≠ name → (runPatch o s0).2.fs.lookup q = s0.fs.lookup q :=
   C01_run o s0 name pname bytes oldt newt 0o644 0o644 [hk] runOpts rfl ⟨rfl, rfl, rfl, rfl, rfl, rfl⟩ (by decide) (by decide)
     (by decide) (by decide) (by decide) (by decide) (by decide) rfl diffHunks (validB_sound _ _ _ _ (by decide))
 
 /-- … and what it promises is the expected text: "a\nB\nc\n" -/
-example : renderLines o.newlineOutput (splice (splitLines bytes) 0 [hk]) = [97, 10, 66, 10, 99, 10] := by decide
+example : Render.renderText o.newlineOutput (splice (splitLines bytes) 0 [hk]) = [97, 10, 66, 10, 99, 10] := by decide
 
 /-- the --dry-run sibling applies as well -/
 example : (runPatch { o with dryRun := true } s0).1 = 0 ∧ (runPatch { o with dryRun := true } s0).2.fs = s0.fs :=
@@ -420,7 +420,7 @@ example : (runPatch { o with dryRun := true } s0).1 = 0 ∧ (runPatch { o with d
 /-- the version without operand applies to the same tree with options `-i p.diff` -/
 example : (runPatch { o with fileToPatch := [] } s0).1 = 0 ∧
     (runPatch { o with fileToPatch := [] } s0).2.fs.lookup name =
-      some (.file (renderLines o.newlineOutput (splice (splitLines bytes) 0 [hk])) 0o644) ∧
+      some (.file (Render.renderText o.newlineOutput (splice (splitLines bytes) 0 [hk])) 0o644) ∧
     ∀ q, q ≠ name → (runPatch { o with fileToPatch := [] } s0).2.fs.lookup q = s0.fs.lookup q :=
   C01_run_guess { o with fileToPatch := [] } s0 name pname bytes oldt newt 0o644 0o644 [hk]
     { noOperand := rfl, noOut := rfl, noBackup := rfl, noReverse := rfl, noDefine := rfl, fuzz := by decide, quiet := rfl,
@@ -490,7 +490,7 @@ theorem diffHunks : DiffHunks [h1, h2] :=
   { nonEmpty := by decide, writable := by decide, change := by decide }
 
 -- what the script means
-theorem meaning : renderLines o.newlineOutput (splice (splitLines bytes) 0 [h1, h2]) = result := by decide
+theorem meaning : Render.renderText o.newlineOutput (splice (splitLines bytes) 0 [h1, h2]) = result := by decide
 
 /-- **`C01_run` applies** (all hypotheses discharged in the kernel): exit status 0, BOTH hunks applied, nothing else touched -/
 theorem applies :
@@ -512,7 +512,7 @@ theorem applies_single :
     (by decide) (by decide) (by decide) (by decide) (by decide) (by decide) (by decide) rfl
     { nonEmpty := by decide, writable := by decide, change := by decide }
     (validB_sound _ _ _ _ (by decide))
-  have hm : renderLines o.newlineOutput (splice (splitLines bytes) 0 [h1]) =
+  have hm : Render.renderText o.newlineOutput (splice (splitLines bytes) 0 [h1]) =
       [49, 10, 50, 10, 51, 10, 52, 10, 53, 10, 54, 10, 55, 10, 56, 10, 57, 10] := by decide
   rw [hm] at h
   exact ⟨h.1, h.2.1⟩
@@ -544,7 +544,7 @@ theorem applies' :
     (by decide) (by decide) (by decide) (by decide) (by decide) (by decide) (by decide) rfl
     { nonEmpty := by decide, writable := by decide, change := by decide }
     (validB_sound _ _ _ _ (by decide))
-  have hm : renderLines o.newlineOutput (splice (splitLines bytes') 0 [h1', h2']) = result' := by decide
+  have hm : Render.renderText o.newlineOutput (splice (splitLines bytes') 0 [h1', h2']) = result' := by decide
   rw [hm] at h
   exact h
 
@@ -604,7 +604,7 @@ theorem crlf_applies :
     (by decide) (by decide) (by decide) (by decide) (by decide) (by decide) (by decide) rfl
     { nonEmpty := by decide, writable := by decide, change := by decide }
     (validB_sound _ _ _ _ (by decide))
-  have hm : renderLines oK.newlineOutput (splice (splitLines [97, 13, 10, 98, 13, 10]) 0 [crlfK]) =
+  have hm : Render.renderText oK.newlineOutput (splice (splitLines [97, 13, 10, 98, 13, 10]) 0 [crlfK]) =
       [97, 13, 10, 66, 13, 10] := by decide
   rw [hm] at h
   exact ⟨h.1, h.2.1⟩
